@@ -43,6 +43,11 @@ type Scenario struct {
 	RaceSig string
 	// ExpectDeadlock: a deadlock is handed to Check instead of being a violation.
 	ExpectDeadlock bool
+	// Schedules, when > 0, makes the scenario a deterministic large-size family member rather than an
+	// exhaustive exploration: only the first Schedules executions of the canonical depth-first order are
+	// run (thousands of threads, where one schedule costs a noticeable fraction of a second). It is
+	// reported as such (not as exhaustive, not as capped by a deadline).
+	Schedules int
 }
 
 type violation struct {
@@ -64,6 +69,7 @@ type scenStat struct {
 	Outcomes   int    `json:"outcomes"`
 	Bound      int    `json:"bound"`
 	Unbounded  bool   `json:"unbounded"`
+	Family     bool   `json:"family,omitempty"`
 	Capped     bool   `json:"capped"`
 	MaxPoints  int    `json:"max_points"`
 }
@@ -191,8 +197,16 @@ func worker(scenarios []Scenario, sh string, budget time.Duration) {
 			outcomes[out] = true
 			return f
 		}
-		stats := vrt.Explore(vrt.Options{MaxBound: bound, Cache: true, Delay: sc.Delay, MaxSteps: sc.MaxSteps, Stop: func() bool { return time.Now().After(scDeadline) || atomic.LoadInt32(&overMem) != 0 }},
+		famRuns := 0
+		stopEvery := int64(0)
+		if sc.Schedules > 0 {
+			stopEvery = 1
+		}
+		stats := vrt.Explore(vrt.Options{MaxBound: bound, Cache: true, Delay: sc.Delay, MaxSteps: sc.MaxSteps, StopEvery: stopEvery, Stop: func() bool {
+			return (sc.Schedules > 0 && famRuns >= sc.Schedules) || time.Now().After(scDeadline) || atomic.LoadInt32(&overMem) != 0
+		}},
 			body, func(x *vrt.Exec) bool {
+				famRuns++
 				st.Steps += int64(x.Steps)
 				f := judge(x)
 				if f == nil {
@@ -229,6 +243,11 @@ func worker(scenarios []Scenario, sh string, budget time.Duration) {
 		st.Executions, st.Complete, st.Cut, st.States = stats.Executions, stats.Complete, stats.Cut, stats.States
 		st.Unbounded, st.MaxPoints = stats.Unbounded, stats.MaxPoints
 		st.Capped = stats.Capped && vio == nil && res.Infra == ""
+		if sc.Schedules > 0 {
+			// a family member: neither exhaustive nor cut by a deadline
+			st.Capped, st.Unbounded, st.Family = false, false, true
+			stats.Capped = true // no state-cache self-test on it
+		}
 		if !stats.Unbounded {
 			st.Bound = stats.BoundCompleted
 		}
@@ -374,7 +393,7 @@ func coordinate(r *ev.Run, scenarios []Scenario, budget time.Duration, finish fu
 	}
 	wg.Wait()
 	var execs, complete, cut, states, steps, raceExecs int64
-	nScen, capped, oneOutcome := 0, 0, 0
+	nScen, capped, oneOutcome, families := 0, 0, 0, 0
 	var cappedNames []string
 	minBound, unb := 1<<30, 0
 	var per []string
@@ -430,6 +449,9 @@ func coordinate(r *ev.Run, scenarios []Scenario, budget time.Duration, finish fu
 				}
 			}
 			steps += s.Steps
+			if s.Family {
+				families++
+			}
 			if s.Capped {
 				capped++
 				if len(cappedNames) < 25 {
@@ -474,6 +496,9 @@ func coordinate(r *ev.Run, scenarios []Scenario, budget time.Duration, finish fu
 	}
 	r.Set("scenarios_with_single_outcome", oneOutcome)
 	r.Set("scenarios_capped_by_deadline", capped)
+	if families > 0 {
+		r.Set("large_size_family_scenarios_run_on_a_fixed_number_of_schedules", families)
+	}
 	if len(cappedNames) > 0 {
 		r.Set("capped_scenarios_first25", cappedNames)
 	}
